@@ -237,7 +237,7 @@ theorem fromMITo3d_ok {n c t : Nat} {X : Arr3 α} (hX : Rect3 n c t X) (hn : 0 <
     simp [levelVals, miOf, hne, Ne.symm hne, pure, Except.pure]
   unfold fromMITo3d
   simp only [hI, hT, bind, Except.bind, hflat, instIds_miRows hX hn hc ht, timeIds_miRows hX hn hc,
-    List.length_map, List.length_range, length_flatten_flatten_rect hX', reshape3_flatten hX']
+    List.length_map, List.length_range, length_flatten_flatten_rect hX']
   simp only [miOf, hl, if_true]
   rw [reshape3_flatten hX', swap_swap hX]
   rfl
